@@ -9,7 +9,7 @@
    One JSON line per case with the specification's answer / the requirement in data form.                     *)
 EXTENDS ContainerPaths, TLC, Json
 
-CONSTANT Mode
+CONSTANTS Mode, EffSrcLocs
 VARIABLE x
 
 (* ---- _parse_bind ---------------------------------------------------------------------------------------- *)
@@ -38,7 +38,7 @@ Pool == {{}, {Bd(<<"hv">>, <<"d">>)}, {Bd(<<"hw">>, <<"d">>)}, {Bd(<<"hv">>, <<"
 Locs == <<"l1", "l2", "l3">>
 LocSet == {"l1", "l2", "l3"}
 EffDsts == {<<"d", "x">>, <<"db", "x">>, <<"e", "x">>, <<"d", "n", "x">>, <<"p", "x">>}
-EffCases == {[tt |-> tt, dst |-> d, src |-> s] : tt \in [LocSet -> Pool], d \in EffDsts, s \in {""} \cup LocSet}
+EffCases == {[tt |-> tt, dst |-> d, src |-> s] : tt \in [LocSet -> Pool], d \in EffDsts, s \in EffSrcLocs}
 EffReq(c) ==
     LET TT == c.tt
         bound(l) == Resolve(TT[l], c.dst).st = HostStore
